@@ -8,6 +8,13 @@ open Redis
 
 /-! ### from the recorder to the local operations of layer 1 -/
 
+/-- the shard actor hands back only the LAST key's delta of a `DEL k₁ … kₙ`: every delta reaches
+    the caller iff no earlier key has an entry in the replication state.  (Always true for the
+    single-key DELs `ReplicatedShardedState::execute` sends since the multi-key split.) -/
+def delShipsAll (rs : Shard) (ks : List Nat) : Bool :=
+  ks.dropLast.all (fun k => (NMap.get rs.keys k).isNone)
+
+
 /-- the recorder either leaves the replication state alone (no delta) or performs exactly one
     local operation of the layer-1 model and hands back its delta -/
 def RecLop (rs : Shard) (out : Shard × Option Delta) : Prop :=
@@ -116,8 +123,8 @@ theorem proj_nodes_get (g : GCluster) (i : Nat) :
 
 theorem proj_client_none {g : GCluster} {i : Nat} {nd : Node} {c : Cmd} (hn : g.nodes[i]? = some nd)
     (hrs : (nd.client c).1.rs = nd.rs) (hd : (nd.client c).2.2 = none) :
-    (g.step (.client i c)).proj = g.proj := by
-  simp only [GCluster.step, hn, hd, GCluster.proj, List.map_set, hrs]
+    (g.clientOne i c).proj = g.proj := by
+  simp only [GCluster.clientOne, hn, hd, GCluster.proj, List.map_set, hrs]
   congr 1
   have hi : i < g.nodes.length := (List.getElem?_eq_some_iff.mp hn).1
   have hget : g.nodes[i] = nd := (List.getElem?_eq_some_iff.mp hn).2
@@ -132,9 +139,9 @@ theorem proj_client_some {g : GCluster} {i : Nat} {nd : Node} {c : Cmd} {op : LO
     (hn : g.nodes[i]? = some nd)
     (hst : Shard.step nd.rs op.toOp = ((nd.client c).1.rs, some d))
     (hd : (nd.client c).2.2 = some (op.key, d)) :
-    (g.step (.client i c)).proj = g.proj.step (.loc i op) := by
+    (g.clientOne i c).proj = g.proj.step (.loc i op) := by
   have hp : g.proj.nodes[i]? = some nd.rs := by rw [proj_nodes_get, hn]; rfl
-  simp only [GCluster.step, hn, hd, Cluster.step, hp, hst]
+  simp only [GCluster.clientOne, hn, hd, Cluster.step, hp, hst]
   simp only [GCluster.proj, List.map_set]
 
 theorem proj_deliver (g : GCluster) (j idx : Nat) :
@@ -166,37 +173,70 @@ theorem allinv_init (n : Nat) (causal : Bool) : AllInv (GCluster.init n causal) 
   obtain ⟨i, _, rfl⟩ := hnd
   exact ginv_init _ _
 
-theorem unsupported_of_g {g : GCluster} {i : Nat} {nd : Node} {c : Cmd} (hn : g.nodes[i]? = some nd)
-    (hs : gunsupported g (.client i c) = none) :
-    unsupported nd (.client c) = none ∧ ∀ ks, c = .del ks → delShipsAll nd.rs ks = true := by
-  simp only [gunsupported, hn] at hs
-  cases hu : unsupported nd (.client c) with
-  | some r => simp [hu] at hs
-  | none =>
-    refine ⟨rfl, fun ks hc => ?_⟩
-    subst hc
-    simp only [hu] at hs
-    cases hx : delShipsAll nd.rs ks with
-    | true => rfl
-    | false => simp [hx] at hs
+theorem allinv_clientOne {g : GCluster} (h : AllInv g) (i : Nat) (c : Cmd)
+    (hs : ∀ nd, g.nodes[i]? = some nd → unsupported nd (.client c) = none) :
+    AllInv (g.clientOne i c) := by
+  simp only [GCluster.clientOne]
+  cases hn : g.nodes[i]? with
+  | none => exact h
+  | some nd =>
+    have hnew := ginv_client (h nd (List.mem_of_getElem? hn)) c (hs nd hn)
+    simp only
+    split <;>
+    · intro x hx
+      rcases Cluster.mem_set hx with hx | hx
+      · subst hx; exact hnew
+      · exact h x hx
 
-theorem allinv_step {g : GCluster} (h : AllInv g) (e : GEv) (hs : gunsupported g e = none) :
-    AllInv (g.step e) := by
+/-- one shard command is zero or one step of the layer-1 cluster -/
+theorem proj_clientOne (g : GCluster) (i : Nat) (c : Cmd)
+    (hdel : ∀ nd, g.nodes[i]? = some nd → ∀ ks, c = .del ks → delShipsAll nd.rs ks = true) :
+    ∃ evs : List Ev, (g.clientOne i c).proj = g.proj.run evs := by
+  cases hn : g.nodes[i]? with
+  | none => exact ⟨[], by simp [GCluster.clientOne, hn, Cluster.run]⟩
+  | some nd =>
+    rcases client_reclop nd c (hdel nd hn) with hl | ⟨op, d, hst, hd⟩
+    · simp only [Prod.mk.injEq] at hl
+      exact ⟨[], by rw [proj_client_none hn hl.1 hl.2]; rfl⟩
+    · exact ⟨[.loc i op], proj_client_some hn hst hd⟩
+
+theorem unsupported_del (nd : Node) (ks : List Nat) : unsupported nd (.client (.del ks)) = none := by
+  simp [unsupported, recorded]
+
+theorem delShipsAll_short (rs : Shard) (ks : List Nat) (h : ¬ ks.length > 1) :
+    delShipsAll rs ks = true := by
+  cases ks with
+  | nil => rfl
+  | cons k ks =>
+    cases ks with
+    | nil => rfl
+    | cons k' ks' => simp at h
+
+/-- the per-key DELs of a split multi-key DEL -/
+theorem fold_single_dels (i : Nat) (ks : List Nat) : ∀ g : GCluster, AllInv g →
+    AllInv ((ks.map (fun k => Cmd.del [k])).foldl (fun g c' => g.clientOne i c') g) ∧
+    ∃ evs : List Ev,
+      ((ks.map (fun k => Cmd.del [k])).foldl (fun g c' => g.clientOne i c') g).proj = g.proj.run evs := by
+  induction ks with
+  | nil => intro g h; exact ⟨h, [], rfl⟩
+  | cons k ks ih =>
+    intro g h
+    simp only [List.map_cons, List.foldl_cons]
+    have h1 := allinv_clientOne h i (.del [k]) (fun nd _ => unsupported_del nd [k])
+    obtain ⟨evs1, hp1⟩ := proj_clientOne g i (.del [k]) (fun nd _ ks' hc => by
+      cases hc; rfl)
+    obtain ⟨h2, evs2, hp2⟩ := ih _ h1
+    refine ⟨h2, evs1 ++ evs2, ?_⟩
+    rw [hp2, hp1]
+    simp only [Cluster.run, List.foldl_append]
+
+/-- one supported step of the glue cluster keeps every node's invariant and is a (possibly
+    empty) sequence of steps of the layer-1 cluster -/
+theorem step_ok {g : GCluster} (h : AllInv g) (e : GEv) (hs : gunsupported g e = none) :
+    AllInv (g.step e) ∧ ∃ evs : List Ev, (g.step e).proj = g.proj.run evs := by
   cases e with
-  | client i c =>
-    simp only [GCluster.step]
-    cases hn : g.nodes[i]? with
-    | none => exact h
-    | some nd =>
-      have hnd : GInv nd := h nd (List.mem_of_getElem? hn)
-      have hnew := ginv_client hnd c (unsupported_of_g hn hs).1
-      simp only
-      split <;>
-      · intro x hx
-        rcases Cluster.mem_set hx with hx | hx
-        · subst hx; exact hnew
-        · exact h x hx
   | deliver j idx =>
+    refine ⟨?_, [.deliver j idx], proj_deliver g j idx⟩
     simp only [GCluster.step]
     cases hn : g.nodes[j]? with
     | none => exact h
@@ -216,20 +256,26 @@ theorem allinv_step {g : GCluster} (h : AllInv g) (e : GEv) (hs : gunsupported g
           rcases Cluster.mem_set hx with hx | hx
           · subst hx; exact ginv_deliver hnd _ _ hu
           · exact h x hx
-
-/-- one supported step of the glue cluster is zero or one step of the layer-1 cluster -/
-theorem proj_step {g : GCluster} (e : GEv) (hs : gunsupported g e = none) :
-    ∃ evs : List Ev, (g.step e).proj = g.proj.run evs := by
-  cases e with
-  | deliver j idx => exact ⟨[.deliver j idx], proj_deliver g j idx⟩
   | client i c =>
-    cases hn : g.nodes[i]? with
-    | none => exact ⟨[], by simp [GCluster.step, hn, Cluster.run]⟩
-    | some nd =>
-      rcases client_reclop nd c (unsupported_of_g hn hs).2 with hl | ⟨op, d, hst, hd⟩
-      · simp only [Prod.mk.injEq] at hl
-        exact ⟨[], by rw [proj_client_none hn hl.1 hl.2]; rfl⟩
-      · exact ⟨[.loc i op], proj_client_some hn hst hd⟩
+    have hone : ∀ c', (c' = c) → (∀ ks, c' = .del ks → ¬ ks.length > 1) →
+        AllInv (g.clientOne i c') ∧ ∃ evs : List Ev, (g.clientOne i c').proj = g.proj.run evs := by
+      intro c' hc hshort
+      subst hc
+      refine ⟨allinv_clientOne h i c' (fun nd hn => ?_), proj_clientOne g i c' (fun nd _ ks hk =>
+        delShipsAll_short nd.rs ks (hshort ks hk))⟩
+      simp only [gunsupported, hn] at hs
+      exact hs
+    cases c with
+    | del ks =>
+      simp only [GCluster.step, splitCmd]
+      by_cases hl : ks.length > 1
+      · simp only [hl, if_true]
+        exact fold_single_dels i ks g h
+      · simp only [hl, if_false, List.foldl_cons, List.foldl_nil]
+        exact hone (.del ks) rfl (fun ks' hk => by cases hk; exact hl)
+    | _ =>
+      simp only [GCluster.step, splitCmd, List.foldl_cons, List.foldl_nil]
+      exact hone _ rfl (fun ks hk => by cases hk)
 
 theorem run_proj (hist : List GEv) : ∀ (g : GCluster), AllInv g → GSupported g hist →
     AllInv (g.run hist) ∧ ∃ evs : List Ev, (g.run hist).proj = g.proj.run evs := by
@@ -237,10 +283,10 @@ theorem run_proj (hist : List GEv) : ∀ (g : GCluster), AllInv g → GSupported
   | nil => intro g h _; exact ⟨h, [], rfl⟩
   | cons e hist ih =>
     intro g h hs
-    obtain ⟨hall, evs2, h2⟩ := ih (g.step e) (allinv_step h e hs.1) hs.2
-    obtain ⟨evs1, h1⟩ := proj_step e hs.1
+    obtain ⟨h1, evs1, hp1⟩ := step_ok h e hs.1
+    obtain ⟨hall, evs2, h2⟩ := ih (g.step e) h1 hs.2
     refine ⟨hall, evs1 ++ evs2, ?_⟩
     simp only [GCluster.run, List.foldl_cons] at h2 ⊢
-    rw [h2, h1]
+    rw [h2, hp1]
     simp only [Cluster.run, List.foldl_append]
 end RedisVerif.Glue
